@@ -2,7 +2,7 @@
 import subprocess
 import vlib
 
-RULE17 = ("explicit-state breadth-first search: state = concrete private coordinate vectors of 3 SpVecGF2 registers over coordinates {0..D-1, 2^40} of type std::size_t (gf2u32 / gf2gu32 configurations: coordinate type std::uint32_t, huge coordinate 2^31+5); "
+RULE17 = ("explicit-state breadth-first search: state = concrete private coordinate vectors of 3 SpVecGF2 registers over coordinates {0..D-1, 2^40} of type std::size_t (gf2u32 / gf2gu32 configurations: coordinate type std::uint32_t, huge coordinate 2^31+5; gf2max* configurations: the huge coordinate is the largest value of the coordinate type, for size_t / uint32_t / uint16_t / uint8_t); "
           "(gf2g configurations realise each abstract coordinate as a GROUP of consecutive or interleaved real coordinates, so vectors with dozens of ones are reached while the "
           "abstract space stays 2^D per register); transitions = every public operation (unit/set/default/copy/move construction, copy/move assignment incl. self, r_i=r_j+r_k, r_i+=r_j incl. aliasing, clear) "
           "executed on the real objects; after every transition canonical form, equality with a dense bitmask model and all observations (size, iteration, "
@@ -31,6 +31,7 @@ def run17(tier):
     b = _b_spvec()
     # gf2:R:D = D plain coordinates + the huge one; gf2g:R:sizes[:i] = coordinate groups (long vectors), consecutive or interleaved
     cfgs = ["gf2u32:3:2", "gf2gu32:3:4-1-3-1", "gf2gu32:2:2-9-1:i",       # the same machine over a 32-bit unsigned coordinate type
+            "gf2max:3:2", "gf2maxu32:3:2", "gf2maxu16:2:3", "gf2maxu8:3:2",   # the "huge" coordinate is the largest value of the coordinate type (size_t, uint32_t, uint16_t, uint8_t)
             "gf2:3:2", "gf2:3:3", "gf2g:3:16-1-8-1", "gf2g:3:1-16-1-8:i", "gf2g:3:20-1-1-3", "gf2g:3:2-33-1-1:i", "gf2g:3:1-1-40-1"]
     if tier == "thorough":
         cfgs += ["gf2:3:4", "gf2:2:5", "gf2g:3:16-1-8-1-4", "gf2g:3:5-17-1-2-64:i", "gf2g:3:1-31-1-32-1", "gf2g:3:100-1-7-1:i", "gf2g:2:3-1-16-1-9-2"]
@@ -76,7 +77,7 @@ def replay(prop, path):
     binary = _b_fp() if rp["case"].startswith("fn=") else _b_spvec()
     p = subprocess.run([binary, "--replay-case", rp["case"]], stdout=subprocess.PIPE, text=True)
     print(p.stdout)
-    if "REPLAY-VIOLATION" in p.stdout:
+    if "REPLAY-VIOLATION" in p.stdout or p.returncode < 0:      # a replay that dies on a signal reproduces a crash
         print("VIOLATION property=%s replay=%s" % (prop, path))
         return 1
     return 0
